@@ -33,7 +33,7 @@ static void print_lookup(const std::shared_ptr<PhaseSpace>& ps, unsigned n,
 //   fp <fptype> <fptrack> <dt> <e1> <seed> [data n*n when fptrack==2]
 // prints per op one "pos" line (all particles after SourceMap::applyToAll); for kick-type ops
 // an "offs" line (the map's _offset), for fp ops "tab" (idx w ...), "fpinfo" (zerobin delta
-// pmin), for the stochastic model "noise" (the values its generator is about to return)
+// pmin of the energy axis, zerobin of the position axis), for the stochastic model "noise" (the values its generator is about to return)
 static void do_track()
 {
     std::string id = next();
@@ -102,7 +102,7 @@ static void do_track()
             printf("tab");
             for (size_t i = 0; i < (size_t)n * dt; i++) { printf(" %u", fpm->_hinfo[i].index); pf(fpm->_hinfo[i].weight); }
             printf("\nfpinfo");
-            pf(in->getAxis(1)->zerobin()); pf(in->getDelta(1)); pf(in->getAxis(1)->min());
+            pf(in->getAxis(1)->zerobin()); pf(in->getDelta(1)); pf(in->getAxis(1)->min()); pf(in->getAxis(0)->zerobin());
             printf("\n");
             if (fptrack == 3) {
                 fpm->_prng.seed(seed);
@@ -218,7 +218,118 @@ static void do_ens()
     printf("end\n");
 }
 
+// dyntrack <id> <n> <it> <qmin> <qmax> <angle> <revpart> <fRF> <phasespread> <amplspread> <modampl> <modtimeinc>
+//          <steps> <seed> <slip0> <renew> <np> np*(x y)
+// The time-dependent RF map and a drift exactly as main() drives them: per step
+//   rfm->apply(); rfm->applyToAll(ps); drm->apply(); drm->applyToAll(ps);
+// on a grid holding a unit hat-blob centred on particle 0 (rf: g1 -> g2, drift: g2 -> g1); every <renew> steps the
+// grid is emptied and a fresh blob is put on particle 0 (interpolation widens the support by up to two cells per map,
+// and the first-moment identity needs the support inside the grid).
+// The modulation queue is recomputed by the map's own __calcModulation after reseeding its PRNG
+// (what the constructor does, with a known seed instead of std::random_device).
+// prints: rf (tan(_angle) _syncphase _bl2phase xcenter delta0), offs0 (the map's _offset after construction),
+// queue (phase ampl ...), then per step: offs (rf _offset after apply), pre (particles before rf applyToAll),
+// rfpos (after it), rfmom (charge and first moments of g2), pos (after the drift), mom (of g1)
+static void moments(const std::shared_ptr<PhaseSpace>& g, unsigned n, const char* tag)
+{
+    double s = 0, sx = 0, sy = 0;
+    for (unsigned x = 0; x < n; x++)
+        for (unsigned y = 0; y < n; y++) {
+            double v = g->getData()[x * n + y];
+            s += v; sx += v * x; sy += v * y;
+        }
+    printf("%s", tag); pd(s); pd(sx); pd(sy); printf("\n");
+}
+
+static void do_dyntrack()
+{
+    std::string id = next();
+    unsigned n = nextl(), it = nextl();
+    float qmin = nextf(), qmax = nextf();
+    float angle = nextf();
+    double revpart = nextd(), fRF = nextd();
+    float phasespread = nextf(), amplspread = nextf(), modampl = nextf();
+    double modtimeinc = nextd();
+    unsigned steps = nextl();
+    unsigned long seed = nextl();
+    float slip0 = nextf();
+    unsigned renew = nextl();
+    unsigned np = nextl();
+    std::vector<PhaseSpace::Position> ps(np);
+    for (auto& p : ps) { p.x = nextf(); p.y = nextf(); }
+    auto g1 = mkps(n, 1, qmin, qmax, qmin, qmax);
+    auto g2 = mkps(n, 1, qmin, qmax, qmin, qmax);
+    auto deposit = [&]() {
+        for (size_t i = 0; i < (size_t)n * n; i++) { g1->getData()[i] = 0; g2->getData()[i] = 0; }
+        float xi, yi;
+        float xf = std::modf(ps[0].x, &xi), yf = std::modf(ps[0].y, &yi);
+        unsigned ix = (unsigned)xi, iy = (unsigned)yi;
+        float wx[2] = {1.0f - xf, xf}, wy[2] = {1.0f - yf, yf};
+        for (int a = 0; a < 2; a++)
+            for (int b = 0; b < 2; b++)
+                if (ix + a < n && iy + b < n) g1->getData()[(ix + a) * n + iy + b] = wx[a] * wy[b];
+    };
+    deposit();
+    auto itp = static_cast<SourceMap::InterpolationType>(it);
+    // the linear dynamic constructor, called as main() calls it
+    std::shared_ptr<DynamicRFKickMap> drfm(new DynamicRFKickMap(g1, g2, n, n, angle, revpart, fRF,
+                                                              phasespread, amplspread, modampl, modtimeinc, steps,
+                                                              itp, false, nullptr));
+    drfm->_prng.seed(seed);
+    drfm->_dist.reset();
+    drfm->_next_modulation = drfm->__calcModulation(steps);
+    std::shared_ptr<SourceMap> rfm = drfm;
+    std::vector<meshaxis_t> slip(2);
+    slip[0] = slip0; slip[1] = 0;
+    std::shared_ptr<SourceMap> drm(new DriftMap(g2, g1, slip, 1.0f, itp, false, nullptr));
+    printf("case %s\nrf", id.c_str());
+    pf(std::tan(drfm->_angle)); pf(drfm->_syncphase); pd(drfm->_bl2phase);
+    pf(g1->getAxis(0)->zerobin()); pf(g1->getAxis(0)->delta());
+    printf("\noffs0");
+    for (unsigned i = 0; i < n; i++) pf(drfm->_offset[i]);
+    printf("\nqueue");
+    { auto q = drfm->_next_modulation; while (!q.empty()) { pf(q.front()[0]); pf(q.front()[1]); q.pop(); } }
+    printf("\n");
+    for (unsigned k = 0; k < steps; k++) {
+        if (renew > 0 && k > 0 && k % renew == 0) deposit();
+        print_pos("pre", ps);
+        rfm->apply();
+        printf("offs");
+        for (unsigned i = 0; i < n; i++) pf(drfm->_offset[i]);
+        printf("\n");
+        rfm->applyToAll(ps);
+        print_pos("rfpos", ps);
+        moments(g2, n, "rfmom");
+        drm->apply();
+        drm->applyToAll(ps);
+        print_pos("pos", ps);
+        moments(g1, n, "mom");
+    }
+    printf("end\n");
+}
+
+// load <id> <n> <qmin> <qmax> <pmin> <pmax> <np> np*(q p)
+// what main() does with a line of the tracking file: {grid->x(q), grid->y(p)}
+static void do_load()
+{
+    std::string id = next();
+    unsigned n = nextl();
+    float qmin = nextf(), qmax = nextf(), pmin = nextf(), pmax = nextf();
+    unsigned np = nextl();
+    auto g = mkps(n, 1, qmin, qmax, pmin, pmax);
+    printf("case %s\naxes", id.c_str());
+    pf(g->getAxis(0)->min()); pf(g->getAxis(0)->delta()); pf(g->getAxis(1)->min()); pf(g->getAxis(1)->delta());
+    printf("\npos");
+    for (unsigned i = 0; i < np; i++) {
+        meshaxis_t q = nextf(), p = nextf();
+        PhaseSpace::Position pos{g->x(q), g->y(p)};
+        pf(pos.x); pf(pos.y);
+    }
+    printf("\nend\n");
+}
+
 int main(int argc, char** argv)
 {
-    return run_main(argc, argv, {{"track", do_track}, {"blob", do_blob}, {"ens", do_ens}});
+    return run_main(argc, argv, {{"track", do_track}, {"blob", do_blob}, {"ens", do_ens}, {"dyntrack", do_dyntrack},
+                                 {"load", do_load}});
 }
